@@ -13,7 +13,8 @@ N == Len(inp)
 IsSpace(c) == c \in {" ", "\n", "\t", "\r"}
 EndsIdent == {"(", ")", "[", "]", "{", "}", ";", "\"", "'", "`", "~"}
 
-CONSTANTS Alphabet, MaxLen, Mode       \* Mode: "enum" | "file"
+CONSTANTS Alphabet, MaxLen, Mode,      \* Mode: "enum" | "file"
+          Start                       \* enum mode: every text starts with this prefix
 
 Texts == IF Mode = "file" THEN ndJsonDeserialize(IOEnv.TEXT_FILE) ELSE <<>>
 
@@ -23,11 +24,15 @@ cvars == <<inp, tid, res>>
 
 AllTexts == UNION {[1..n -> Alphabet] : n \in 0..MaxLen}
 
-Init == /\ IF Mode = "enum" THEN inp \in AllTexts /\ tid = 0
+\* enum mode grows texts one character at a time (so that TLC's workers share the
+\* work); file mode has one initial state per text
+Init == /\ IF Mode = "enum" THEN inp = Start /\ tid = 0
            ELSE tid \in 1..Len(Texts) /\ inp = Texts[tid].text
         /\ res = Parse(inp)
-
-Next == UNCHANGED cvars
+Grow == /\ Mode = "enum" /\ Len(inp) < MaxLen + Len(Start)
+        /\ \E c \in Alphabet : inp' = Append(inp, c) /\ res' = Parse(Append(inp, c))
+        /\ UNCHANGED tid
+Next == Grow
 Spec == Init /\ [][Next]_cvars
 
 \* ---- C18: reading always ends in one of the documented outcomes
@@ -83,9 +88,65 @@ CutLawAt(k) ==
   /\ ((BetweenTopLevel(k) /\ ~MidToken(k)) => rk.st \in {"ok", "unk"})
 CutLaw == (res.st = "ok" /\ Mode = "enum") => \A k \in 0..(N - 1) : CutLawAt(k)
 
+\* ---- C20: separators, discards, concatenation
+RECURSIVE EqModPos(_, _), EqSeqModPos(_, _)
+EqModPos(a, b) == a.t = b.t /\ a.v = b.v /\ a.x = b.x /\ EqSeqModPos(a.ch, b.ch)
+EqSeqModPos(as, bs) == Len(as) = Len(bs) /\ \A k \in 1..Len(as) : EqModPos(as[k], bs[k])
+AtomLike(m) == m.t \in {"sym", "kw", "int", "str", "bytes", "fstr", "comment"}
+                \/ (m.t = "expr" /\ inp[m.ix[1]] \notin {"(", "'", "`", "~", "#"})   \* dotted identifier
+\* the gap after character k (0..N) lies between forms: a separator may be inserted there
+OpenerLen(m) == IF inp[m.ix[1]] = "#" THEN
+                   (IF m.t \in {"set", "tuple"} THEN 2
+                    ELSE IF m.ix[1] + 2 <= N /\ inp[m.ix[1] + 1] = "*" /\ inp[m.ix[1] + 2] = "*" THEN 3 ELSE 2)
+                ELSE IF inp[m.ix[1]] = "~" /\ m.ix[1] < N /\ inp[m.ix[1] + 1] = "@" THEN 2 ELSE 1
+IsGap(k) ==
+  \A m \in NodesOf(res.ch) \cup res.ghosts : Positioned(m) =>
+     /\ (AtomLike(m) => ~(m.ix[1] <= k /\ k < m.ix[2]))
+     /\ ((~AtomLike(m) /\ m.t # "fcomp") => ~(m.ix[1] <= k /\ k < m.ix[1] + OpenerLen(m) - 1))
+     /\ (m.t = "discard" => ~(m.ix[1] <= k /\ k < m.ix[1] + 1))
+Insert(k, sep) == SubSeq(inp, 1, k) \o sep \o SubSeq(inp, k + 1, N)
+Separators == {<<" ">>, <<"\n">>, <<";", "a", "\n">>, <<" ", "#", "_", " ", "a", " ">>, <<"\t">>}
+SepLaw ==
+  (res.st = "ok" /\ Mode = "enum") =>
+     \A k \in 0..N : IsGap(k) =>
+        \A sep \in Separators :
+           LET r == Parse(Insert(k, sep)) IN r.st = "ok" /\ EqSeqModPos(r.ch, res.ch)
+\* reading a concatenation gives the concatenation of the model lists
+Tails == {<<"a">>, <<"(", "a", ")">>, <<"'", "a">>, <<"\"", "a", "\"">>, <<":", "a">>,
+          <<"#", "_", " ", "a", " ", "b">>, <<";", "a", "\n", "b">>, <<>>}
+EndsInComment == \E m \in res.ghosts : m.t = "comment" /\ m.ix[2] = N /\ inp[N] # "\n"
+ConcatLaw ==
+  (res.st = "ok" /\ Mode = "enum" /\ ~EndsInComment) =>
+     \A t2 \in Tails :
+        LET r2 == Parse(t2)
+            r == Parse(inp \o <<" ">> \o t2)
+        IN r.st = "ok" /\ EqSeqModPos(r.ch, res.ch \o r2.ch)
+
+\* ---- C21: the region of every model reads back to an equal model
+RECURSIVE NP(_, _)
+NP(ms, pix) == IF ms = <<>> THEN {}
+               ELSE {<<Head(ms), pix>>} \cup NP(Head(ms).ch, Head(ms).ix) \cup NP(Tail(ms), pix)
+RegionReadsBack ==
+  (res.st = "ok" /\ Mode = "enum") =>
+     \A q \in NP(res.ch, <<0, 0>>) :
+        LET m == q[1] IN
+        (Positioned(m) /\ m.ix # q[2]) =>      \* synthesized parts share their parent's region
+           LET r == Parse(SubSeq(inp, m.ix[1], m.ix[2])) IN
+           r.st = "ok" /\ Len(r.ch) = 1 /\ EqModPos(r.ch[1], m)
+
 \* ---- export / acceptance
-Export == PrintT(<<"ROW", ToJson([text |-> inp, st |-> res.st, raw |-> res.raw, ch |-> res.ch])>>)
-Same == res.st = "unk" \/ (res.st = Texts[tid].st /\ (res.st = "ok" => res.ch = Texts[tid].ch))
+CutClass(k) == IF MidToken(k) THEN "X" ELSE IF Unclosed(k) THEN "E" ELSE IF BetweenTopLevel(k) THEN "O" ELSE "X"
+Export == PrintT(<<"ROW", ToJson([text |-> inp, st |-> res.st, raw |-> res.raw, ch |-> res.ch,
+                                  cuts |-> IF res.st = "ok" THEN [k \in 1..N |-> CutClass(k - 1)] ELSE <<>>,
+                                  gaps |-> IF res.st = "ok" THEN {k \in 0..N : IsGap(k)} ELSE {}])>>)
+Same == res.st = "unk" \/ (res.st = Texts[tid].st /\ (res.st = "ok" => EqSeqModPos(res.ch, Texts[tid].ch)))
+RECURSIVE EqWithPos(_, _), EqSeqWithPos(_, _)
+EqWithPos(a, b) == a.t = b.t /\ a.v = b.v /\ a.x = b.x /\ (a.ix = <<0, 0>> \/ b.ix = <<0, 0>> \/ (a.p = b.p /\ a.ix = b.ix))
+                   /\ EqSeqWithPos(a.ch, b.ch)
+EqSeqWithPos(as, bs) == Len(as) = Len(bs) /\ \A k \in 1..Len(as) : EqWithPos(as[k], bs[k])
+AcceptPos == Mode = "file" => ((res.st = "ok" /\ EqSeqWithPos(res.ch, Texts[tid].ch)) => PrintT(<<"ACC", ToJson(tid)>>))
 Accept == Mode = "file" => (Same => PrintT(<<"ACC", ToJson(tid)>>))
 Unknown == (Mode = "file" /\ res.st = "unk") => PrintT(<<"UNK", ToJson(tid)>>)
+\* file mode also reports what the specification says, for diagnosis
+Says == Mode = "file" => PrintT(<<"SAYS", ToJson([tid |-> tid, st |-> res.st, raw |-> res.raw, ch |-> res.ch])>>)
 =============================================================================
